@@ -17,3 +17,23 @@ Definition mcp_calls : list (bytes * list store_method) :=
 (* method set of metadata.Store (+ ConsumerOffsetLookup) as declared now *)
 Definition store_interface_methods : list store_method :=
   [M_CommitConsumerOffset; M_CreatePartitions; M_CreateTopic; M_DeleteConsumerGroup; M_DeleteTopic; M_FetchConsumerGroup; M_FetchConsumerOffset; M_FetchTopicConfig; M_ListConsumerGroups; M_ListConsumerOffsets; M_LookupConsumerOffset; M_Metadata; M_NextOffset; M_PutConsumerGroup; M_UpdateOffsets; M_UpdateTopicConfig].
+
+(* for every Store method: state-writing actions reachable from its bodies in pkg/metadata
+   (etcd client Put/Delete/Txn, write lock, writes to receiver fields) *)
+Definition mcp_method_writes : list (store_method * list bytes) :=
+  [ (M_CommitConsumerOffset, [lit "EtcdStore.CommitConsumerOffset: etcd client.Put"%string; lit "InMemoryStore.CommitConsumerOffset: takes the write lock mu.Lock"%string; lit "InMemoryStore.CommitConsumerOffset: writes field consumerMeta"%string; lit "InMemoryStore.CommitConsumerOffset: writes field consumerOffsets"%string]);
+    (M_CreatePartitions, [lit "EtcdStore.CreatePartitions -> EtcdStore.persistSnapshot -> EtcdStore.persistSnapshotLocked: etcd client.Put"%string; lit "EtcdStore.CreatePartitions -> EtcdStore.syncTopicConfigPartitions: etcd client.Put"%string; lit "EtcdStore.CreatePartitions -> InMemoryStore.CreatePartitions: takes the write lock mu.Lock"%string; lit "EtcdStore.CreatePartitions -> InMemoryStore.CreatePartitions: writes field topicConfigs"%string; lit "EtcdStore.CreatePartitions: etcd client.Put"%string; lit "InMemoryStore.CreatePartitions: takes the write lock mu.Lock"%string; lit "InMemoryStore.CreatePartitions: writes field topicConfigs"%string]);
+    (M_CreateTopic, [lit "EtcdStore.CreateTopic -> EtcdStore.persistSnapshotLocked: etcd client.Put"%string; lit "EtcdStore.CreateTopic -> InMemoryStore.CreateTopic: takes the write lock mu.Lock"%string; lit "EtcdStore.CreateTopic -> InMemoryStore.CreateTopic: writes field state"%string; lit "EtcdStore.CreateTopic -> InMemoryStore.CreateTopic: writes field topicConfigs"%string; lit "InMemoryStore.CreateTopic: takes the write lock mu.Lock"%string; lit "InMemoryStore.CreateTopic: writes field state"%string; lit "InMemoryStore.CreateTopic: writes field topicConfigs"%string]);
+    (M_DeleteConsumerGroup, [lit "EtcdStore.DeleteConsumerGroup: etcd client.Delete"%string; lit "InMemoryStore.DeleteConsumerGroup: delete from field consumerGroups"%string; lit "InMemoryStore.DeleteConsumerGroup: takes the write lock mu.Lock"%string]);
+    (M_DeleteTopic, [lit "EtcdStore.DeleteTopic -> EtcdStore.deleteConsumerOffsets: etcd client.Delete"%string; lit "EtcdStore.DeleteTopic -> EtcdStore.deleteTopicOffsets: etcd client.Delete"%string; lit "EtcdStore.DeleteTopic -> EtcdStore.persistSnapshotLocked: etcd client.Put"%string; lit "EtcdStore.DeleteTopic -> InMemoryStore.DeleteTopic: delete from field consumerMeta"%string; lit "EtcdStore.DeleteTopic -> InMemoryStore.DeleteTopic: delete from field consumerOffsets"%string; lit "EtcdStore.DeleteTopic -> InMemoryStore.DeleteTopic: delete from field offsets"%string; lit "EtcdStore.DeleteTopic -> InMemoryStore.DeleteTopic: delete from field topicConfigs"%string; lit "EtcdStore.DeleteTopic -> InMemoryStore.DeleteTopic: takes the write lock mu.Lock"%string; lit "EtcdStore.DeleteTopic -> InMemoryStore.DeleteTopic: writes field state"%string; lit "InMemoryStore.DeleteTopic: delete from field consumerMeta"%string; lit "InMemoryStore.DeleteTopic: delete from field consumerOffsets"%string; lit "InMemoryStore.DeleteTopic: delete from field offsets"%string; lit "InMemoryStore.DeleteTopic: delete from field topicConfigs"%string; lit "InMemoryStore.DeleteTopic: takes the write lock mu.Lock"%string; lit "InMemoryStore.DeleteTopic: writes field state"%string]);
+    (M_FetchConsumerGroup, []);
+    (M_FetchConsumerOffset, []);
+    (M_FetchTopicConfig, []);
+    (M_ListConsumerGroups, []);
+    (M_ListConsumerOffsets, []);
+    (M_LookupConsumerOffset, []);
+    (M_Metadata, []);
+    (M_NextOffset, []);
+    (M_PutConsumerGroup, [lit "EtcdStore.PutConsumerGroup: etcd client.Put"%string; lit "InMemoryStore.PutConsumerGroup: takes the write lock mu.Lock"%string; lit "InMemoryStore.PutConsumerGroup: writes field consumerGroups"%string]);
+    (M_UpdateOffsets, [lit "EtcdStore.UpdateOffsets: etcd client.Put"%string; lit "InMemoryStore.UpdateOffsets: takes the write lock mu.Lock"%string; lit "InMemoryStore.UpdateOffsets: writes field offsets"%string]);
+    (M_UpdateTopicConfig, [lit "EtcdStore.UpdateTopicConfig -> InMemoryStore.UpdateTopicConfig: takes the write lock mu.Lock"%string; lit "EtcdStore.UpdateTopicConfig -> InMemoryStore.UpdateTopicConfig: writes field topicConfigs"%string; lit "EtcdStore.UpdateTopicConfig: etcd client.Put"%string; lit "InMemoryStore.UpdateTopicConfig: takes the write lock mu.Lock"%string; lit "InMemoryStore.UpdateTopicConfig: writes field topicConfigs"%string]) ].
